@@ -144,6 +144,14 @@ def gen_wiki(rng):
     if rng.random() < 0.3:
         w.add("Dangling", ["#REDIRECT [[Nowhere at all]]"])
         redirs.append("Dangling")
+    # a redirect with a history: retargeted later, or turned into an article later (its first revision can be pinned)
+    if rng.random() < 0.35:
+        first = rng.choice(arts)
+        if rng.random() < 0.5 and len(arts) > 1:
+            later = "#REDIRECT [[%s]]" % rng.choice([a for a in arts if a != first])
+        else:
+            later = "now an article of its own" + ("".join(" [[File:%s]]" % im for im in imgs[:1]))
+        w.add("Redir moved", ["#REDIRECT [[%s]]" % first, later], contributors=["Zed"], anon=1)
     return w, arts, redirs
 
 
@@ -166,6 +174,10 @@ def gen_metabook_items(rng, w, arts, redirs):
     for r in redirs:
         if rng.random() < 0.6 and w.resolve(r) not in pinned_old:
             items.append((r, None))
+    if "Redir moved" in w.pages and rng.random() < 0.7:
+        first_target = re.match(r"#REDIRECT \[\[(.*?)\]\]", w.pages["Redir moved"]["revs"][0][1]).group(1)
+        if first_target not in pinned_old:
+            items.append(("Redir moved", w.pages["Redir moved"]["revs"][0][0]))      # pinned to the revision that redirects
     if rng.random() < 0.3:
         items.append(("Missing page", None))
     rng.shuffle(items)
@@ -365,6 +377,11 @@ def make_api_class():
 LISTED = {}
 
 
+def redirect_of(txt):
+    mo = re.match(r"#REDIRECT \[\[(.*?)\]\]", txt or "")
+    return mo.group(1) if mo else None
+
+
 def needs_graph(w, items):
     """the wiki's own closure: what must be in the archive. -> dict item -> successors, roots"""
     succ = {}
@@ -376,6 +393,11 @@ def needs_graph(w, items):
             if p is None:
                 continue
             key = ("rev", p["title"], rev)
+            if redirect_of(txt):                      # a pinned revision that redirects: the target as the wiki serves it now
+                target = w.resolve(redirect_of(txt))
+                if target is None:
+                    continue
+                txt = w.current(target)
         else:
             target = w.resolve(title)
             if target is None:
@@ -476,6 +498,9 @@ def run_case(seed):
         for title, revision in items:
             if revision is not None:
                 p, src = w.text_of_rev(revision)
+                if redirect_of(src):
+                    tgt = w.resolve(redirect_of(src))
+                    src = w.current(tgt) if tgt else None
             else:
                 tgt = w.resolve(title)
                 src = w.current(tgt) if tgt else None
@@ -517,6 +542,8 @@ def run_case(seed):
         authors_db = getattr(adapt.nuwiki, "authors", None)
         for title, revision in items:
             tgt = w.resolve(title) if revision is None else (w.text_of_rev(revision)[0] or {}).get("title")
+            if revision is not None and redirect_of(w.text_of_rev(revision)[1]):
+                tgt = w.resolve(redirect_of(w.text_of_rev(revision)[1]))
             if not tgt:
                 continue
             got = authors_db[tgt] if authors_db is not None else None
